@@ -22,9 +22,10 @@ ShardOf(d) ==
   ELSE IF d.kind = "nested" THEN (d.s1 + d.s2 + d.s3 + d.s4 + d.s5) % NShards
   ELSE IF d.kind = "split" THEN d.at % NShards
   ELSE IF d.kind = "bytes" THEN d.i % NShards
+  ELSE IF d.kind = "attr" THEN d.i % NShards
   ELSE (d.subj + d.cs + SumSeqs(d.cb) + SumSeq(d.db)) % NShards
 
-Init == cas \in {d \in MsgFamFlat(MaxParts) \cup MsgFamPlural(MaxInner) \cup MsgFamExtra \cup MsgFamNested \cup MsgFamSplit \cup MsgFamBytes :
+Init == cas \in {d \in MsgFamFlat(MaxParts) \cup MsgFamPlural(MaxInner) \cup MsgFamExtra \cup MsgFamNested \cup MsgFamSplit \cup MsgFamBytes \cup MsgFamAttr :
                    ShardOf(d) = Shard}
 
 Meanings == <<"", "m", "verb">>
@@ -50,7 +51,8 @@ CaseRecord(d) ==
    multi |-> MsgMultiGroup(body),
    rep   |-> MsgRepeats(body),
    feat  |-> MsgFeature(body),
-   idterms |-> LET ms == IF d.kind = "split" THEN <<MsgFamMeaning(d)>> ELSE Meanings IN
+   idterms |-> LET ms == IF d.kind = "split" THEN <<MsgFamMeaning(d)>>
+                         ELSE IF d.kind = "attr" THEN <<"", MsgFamMeaning(d)>> ELSE Meanings IN
                [i \in 1..Len(ms) |->
                   [meaning |-> ms[i],
                    term |-> MsgIdAbs([body |-> body, meaning |-> ms[i], desc |-> ""])]]]
